@@ -4,7 +4,7 @@ PROP = "C07"
 LEANCHECK_MODULES = ["Ivy.L1.Machine", "Ivy.L1.Exec", "Ivy.Mon.C07", "Ivy.L1.ProofsC07", "Ivy.Props.C07"]
 FAMILIES = ['lifecycle', 'mix', 'deadline']
 MONS = ['C07', 'C07spin', 'C07idle', 'C07tmo', 'C04', 'C06']   # 'blocks only when nothing is due' = no oversleep (C04) + no blocking wait with a task pending (C06)
-SANS = []
+SANS = ['TIMEOUT']      # the library did not return (hang or spin inside a call): 'never hangs or spins'
 RULE = ("scenario families ['lifecycle', 'mix'] (see vlib/loopgen.py) rotating over the four poll methods and the fault configurations; every log is "
         "replayed through the Lean machine (every library record must be predicted) and through the Lean monitor(s) ['C07', 'C07spin']; sanitizer "
         "classes counted as violations of this property: []. non-trivial = iv_main returned at least once after objects had been registered and unregistered, or a registration failed; distinct by hash of the log")
